@@ -27,7 +27,9 @@ def run(prop, explorations, accept_tags=None, extra_cov=None, extra_viol=(), lev
         cfgs = list(cfgs)
         if not cfgs:
             continue
-        a = e1run.explore(factory, cfgs, budget)
+        import os
+        cap = int(os.environ.get("VERIF_MAXEXEC", "0")) or None  # sizing aid only: a capped run reports exhaustive=false
+        a = e1run.explore(factory, cfgs, budget, max_exec=cap)
         v, nt = e1run.to_violations(prop, a, factory, budget, accept_tags)
         viols += v
         notes += nt
